@@ -141,36 +141,46 @@ def _post_substitution(compound, source, target, portion, result):
     return None
 
 
-def _install_wrapper():
+def _install_wrapper(ctx):
+    """Postcondition wrapper on the PRIVATE _isotope_substitution: optional instrumentation.  Absent name: skipped
+    and the requirement on its evaluation waived.  A call that is not of the pinned form (compound, source, target
+    [, portion]) or a result that is not a Formula is passed through un-judged (…unrecognised_call)."""
     from collections import Counter
     from periodictable import formulas
+    from ..gen.formulas import private
     _s['n'] = Counter()
     _s['post_failures'] = []
-    orig = formulas._isotope_substitution
+    orig = private(ctx, formulas, '_isotope_substitution', waived=['contract._isotope_substitution'])
+    if orig is None or not callable(orig):
+        return
+    Formula = formulas.Formula
 
-    def _isotope_substitution(compound, source, target, portion=1):
+    def _isotope_substitution(*args, **kw):
         try:
-            result = orig(compound, source, target, portion=portion)
+            result = orig(*args, **kw)
         except Exception:
             _s['n']['contract._isotope_substitution.raised'] += 1
             raise
         try:
-            msg = _post_substitution(compound, source, target, portion, result)
+            extra = dict(kw)
+            portion = extra.pop('portion', args[3] if len(args) == 4 else 1)
+            recognised = (not extra and 3 <= len(args) <= 4 and not (len(args) == 4 and 'portion' in kw)
+                          and isinstance(args[0], Formula) and isinstance(result, Formula))
+        except Exception:
+            recognised = False
+        if not recognised:
+            _s['n']['contract._isotope_substitution.unrecognised_call'] += 1
+            return result
+        try:
+            msg = _post_substitution(args[0], args[1], args[2], portion, result)
         except Exception as exc:
             msg = 'postcondition could not be evaluated: %r' % (exc,)
         if msg:
             _s['post_failures'].append('_isotope_substitution postcondition: ' + msg)
         return result
     _isotope_substitution.__wrapped__ = orig
+    _isotope_substitution.__doc__ = getattr(orig, '__doc__', None)
     formulas._isotope_substitution = _isotope_substitution
-
-
-def _nested_code(code, names, out):
-    for c in code.co_consts:
-        if hasattr(c, 'co_name'):
-            if c.co_name in names:
-                out[c.co_name] = c
-            _nested_code(c, names, out)
 
 
 def setup(ctx):
@@ -180,6 +190,7 @@ def setup(ctx):
     from ..statemon import Reach
     from ..atoms import lookup
     from ..gen.mixtures import Lib
+    from ..gen.formulas import watch_nested, watch_private, waive
     _s['model'] = MassModel()
     _s['me'] = pt.constants.electron_mass
     _s['symbol'] = {el.number: el.symbol for el in pt.elements}
@@ -197,15 +208,22 @@ def setup(ctx):
     for name, v in PACKING.items():
         if abs(v - PACKING_DOC[name]) > 6e-6:
             raise ModelError('own packing factor table disagrees with the documented value of %s' % name)
-    _install_wrapper()
     reach = Reach()
-    found = {}
-    _nested_code(formulas.formula_grammar.__code__, {'convert_compound', 'convert_mixture'}, found)
-    for name, code in found.items():
-        reach.codes[code] = name
+    if getattr(formulas, '_isotope_substitution', None) is not None:
+        watch_private(ctx, reach, formulas, '_isotope_substitution')      # evidence only (no requirement on it)
+    _install_wrapper(ctx)
+    # the two parse actions are nested functions of formula_grammar on the pinned tree (private names): optional
+    watch_nested(ctx, reach, getattr(formulas, 'formula_grammar', None), ('convert_compound', 'convert_mixture'))
     reach.watch(formulas.Formula.natural_mass_ratio, 'natural_mass_ratio')
-    reach.codes[formulas.Formula.natural_density.fset.__code__] = 'natural_density.setter'
-    reach.codes[formulas.Formula.natural_density.fget.__code__] = 'natural_density.getter'
+    # natural_density is a documented read/write attribute; that it is a Python property with fget/fset code of
+    # its own is how the pinned tree does it
+    nd = getattr(formulas.Formula, 'natural_density', None)
+    for part, label in (('fset', 'natural_density.setter'), ('fget', 'natural_density.getter')):
+        code = getattr(getattr(nd, part, None), '__code__', None)
+        if code is not None:
+            reach.codes[code] = label
+        else:
+            waive(ctx, ['reach.' + label], 'Formula.natural_density has no %s code object in this tree' % part)
     reach.watch(formulas.Formula.volume, 'Formula.volume')
     reach.watch(util.cell_volume, 'cell_volume')
     reach.start()
@@ -233,8 +251,13 @@ def setup(ctx):
 def finish(ctx):
     _s['reach'].stop()
     _s['reach'].export(ctx)
-    for k, v in _s['n'].items():
+    from ..gen.formulas import waive_unjudged, waive_dead
+    for k, v in list(_s['n'].items()):
         ctx.count(k, v)
+    if '_isotope_substitution' in _s['reach'].codes.values():
+        waive_dead(ctx, '_isotope_substitution', ['contract._isotope_substitution'], 'eval.replace-counts')
+    waive_unjudged(ctx, 'contract._isotope_substitution', _s['n']['contract._isotope_substitution'],
+                   _s['n']['contract._isotope_substitution.unrecognised_call'], 'the private formulas._isotope_substitution')
 
 
 def _drain(problems):
@@ -946,8 +969,9 @@ def generate(ctx):
 def classify(rec):
     d = rec.get('detail') or {}
     case = rec.get('case') or {}
-    if rec.get('check') == 'replace' and d.get('exc_type') == 'TypeError' and d.get('unknown_density') is True \
-            and d.get('source_present') is True and d.get('sibling_ok') is True and case.get('rho') is None \
-            and 'NoneType' in rec.get('msg', ''):
+    # public symptoms only (exception type and text are free): replace() on a formula of unknown density raises
+    # although the source atom is present, and the same substitution on the same formula with a density works
+    if rec.get('check') == 'replace' and d.get('exc_type') and d.get('unknown_density') is True \
+            and d.get('source_present') is True and d.get('sibling_ok') is True and case.get('rho') is None:
         return 'c12.replace-unknown-density'
     return None
